@@ -187,8 +187,20 @@ func (t *Dense) WriteCSV(w io.Writer, formats ...string) (err error) {
 
 `
 
-const gobEncodeRaw = `// GobEncode implements gob.GobEncoder
+const gobEncodeRaw = `// compactForIO returns the tensor whose storage the encoders may write out as it is: t itself, or - when t is a view
+// that does not cover its storage window, so that the window also holds elements that are not t's - a compact copy of t.
+func (t *Dense) compactForIO() *Dense {
+	if t.viewOf != 0 && t.len() != t.Size() {
+		if m, ok := t.Materialize().(*Dense); ok {
+			return m
+		}
+	}
+	return t
+}
+
+// GobEncode implements gob.GobEncoder
 func (t *Dense) GobEncode() (p []byte, err error){
+	t = t.compactForIO()
 	var buf bytes.Buffer
 	encoder := gob.NewEncoder(&buf)
 
@@ -212,7 +224,7 @@ func (t *Dense) GobEncode() (p []byte, err error){
 		return
 	}
 
-	data := t.Data()
+	data := t.array.Data() // always the slice: Data() of a scalar tensor is the bare value, which GobDecode cannot take
 	if err = encoder.Encode(&data); err != nil {
 		return
 	}
@@ -477,6 +489,7 @@ var fbEncodeDecodeRaw = `// FBEncode encodes to a byte slice using flatbuffers.
 //
 // Only natively accessible data can be encided
 func (t *Dense) FBEncode() ([]byte, error) {
+	t = t.compactForIO()
 	builder := flatbuffers.NewBuilder(1024)
 
 	fb.DenseStartShapeVector(builder, len(t.shape))
@@ -597,6 +610,7 @@ func (t *Dense) FBDecode(buf []byte) error {
 
 var pbEncodeDecodeRaw = `// PBEncode encodes the Dense into a protobuf byte slice.
 func (t *Dense) PBEncode() ([]byte, error) {
+	t = t.compactForIO()
 	var toSerialize pb.Dense
 	toSerialize.Shape = make([]int32, len(t.shape))
 	for i, v := range t.shape {
